@@ -102,3 +102,24 @@ Theorem weights_follow_particles : forall i,
   phase1_wlo i = phase1_plo i /\ phase1_whi i = phase1_phi i.
 Proof. exact weights_follow_particles_lemma. Qed.
 Print Assumptions weights_follow_particles.
+
+(* Tie of the hand-written geometry to the generated kernel text: for every in-domain particle (position X/D cells, offset
+   O/D cells, any cell size h) the rows of C07/Model.v are exactly the rows that the index computations regenerated from
+   _tsc_scatter (C06/Gen.v: round, _rightwrap, the -1/+1 neighbours, numba's negative-index wrap) address — along each of the
+   three axes, so whichever `coord` is used for the partition. *)
+From Coq Require Import QArith.
+From Abacus.C06 Require Kernel1D.
+From Abacus.C07 Require TieC06.
+Theorem rows_agree_with_generated_kernel : forall n D O X (h : Q),
+  (6 <= n)%Z -> (0 < D)%Z -> (0 <= O < D)%Z -> (0 <= X <= n * D)%Z -> (0 < h)%Q ->
+  let pos := ((X # Z.to_pos D) * h)%Q in let off := ((O # Z.to_pos D) * h)%Q in let box := (inject_Z n * h)%Q in
+  C06.Kernel1D.rows_touched n (C06.Kernel1D.tsc_axis_x pos off box n) = map Some (rows n D O X) /\
+  C06.Kernel1D.rows_touched n (C06.Kernel1D.tsc_axis_y pos off box n) = map Some (rows n D O X) /\
+  C06.Kernel1D.rows_touched n (C06.Kernel1D.tsc_axis_z pos off box n) = map Some (rows n D O X).
+Proof.
+  intros n D O X h Hn HD HO HX Hh. cbv zeta. split; [|split].
+  - exact (TieC06.rows_agree_x n D O X h Hn HD HO HX Hh).
+  - exact (TieC06.rows_agree_y n D O X h Hn HD HO HX Hh).
+  - exact (TieC06.rows_agree_z n D O X h Hn HD HO HX Hh).
+Qed.
+Print Assumptions rows_agree_with_generated_kernel.
